@@ -18,6 +18,7 @@ import (
 	"github.com/oasisprotocol/oasis-core/go/roothash/api/commitment"
 	scheduler "github.com/oasisprotocol/oasis-core/go/scheduler/api"
 
+	"verifharness/c11model"
 	"verifharness/ev"
 )
 
@@ -102,203 +103,30 @@ func mkCommit(node, sched signature.PublicKey, round uint64, result int) *commit
 // ---------------------------------------------------------------------------------------
 // Reference model, written from the property statement.
 
-type outcome int
-
-const (
-	oWait outcome = iota
-	oFinalize
-	oDiscrepancy
-	oFailNoScheduler
-	oFailResolution // insufficient votes / majority for another result
+type (
+	outcome = c11model.Outcome
+	model   = c11model.Model
 )
 
-func (o outcome) String() string {
-	return [...]string{"WAIT", "FINALIZE", "DISCREPANCY", "FAIL(no scheduler)", "FAIL(resolution)"}[o]
-}
-
-type vote struct {
-	result int // 0 = failure
-}
-
-type model struct {
-	workers, backups []signature.PublicKey
-	stragglers       int
-	round            uint64
-
-	resolving bool
-	best      uint64 // rank of the best committed scheduler, MaxUint64 = none
-	// votes[rank][node]
-	votes map[uint64]map[signature.PublicKey]vote
-	// result the scheduler of a rank committed to
-	schedResult map[uint64]int
-}
+const (
+	oWait            = c11model.Wait
+	oFinalize        = c11model.Finalize
+	oDiscrepancy     = c11model.Discrepancy
+	oFailNoScheduler = c11model.FailNoScheduler
+	oFailResolution  = c11model.FailResolution
+)
 
 func newModel(c *caseDesc) *model {
-	m := &model{stragglers: c.Stragglers, round: c.Round, best: math.MaxUint64,
-		votes: map[uint64]map[signature.PublicKey]vote{}, schedResult: map[uint64]int{}}
 	com, _ := c.committee()
+	var workers, backups []signature.PublicKey
 	for _, n := range com.Members {
 		if n.Role == scheduler.RoleWorker {
-			m.workers = append(m.workers, n.PublicKey)
+			workers = append(workers, n.PublicKey)
 		} else {
-			m.backups = append(m.backups, n.PublicKey)
+			backups = append(backups, n.PublicKey)
 		}
 	}
-	return m
-}
-
-func contains(l []signature.PublicKey, k signature.PublicKey) bool {
-	for _, x := range l {
-		if x == k {
-			return true
-		}
-	}
-	return false
-}
-
-// rank of a scheduler: workers take turns; the worker at index i has rank (round+i) mod |workers|.
-func (m *model) rank(s signature.PublicKey) (uint64, bool) {
-	for i, w := range m.workers {
-		if w == s {
-			return (m.round + uint64(i)) % uint64(len(m.workers)), true
-		}
-	}
-	return 0, false
-}
-
-// add returns whether the vote is admitted.
-func (m *model) add(node, sched signature.PublicKey, result int) bool {
-	// Non-members never count; during resolution only backup workers vote.
-	if m.resolving {
-		if !contains(m.backups, node) {
-			return false
-		}
-	} else if !contains(m.workers, node) && !contains(m.backups, node) {
-		return false
-	}
-	r, ok := m.rank(sched)
-	if !ok {
-		return false
-	}
-	// A lower-priority scheduler's proposal is never preferred over a committed higher-priority one.
-	if r > m.best {
-		return false
-	}
-	if m.resolving && r != m.best {
-		return false
-	}
-	own := node == sched
-	// Each member's vote counts at most once per round and scheduler.
-	if _, dup := m.votes[r][node]; dup {
-		return false
-	}
-	if own && r < m.best {
-		m.best = r
-		for k := range m.votes {
-			if k > r {
-				delete(m.votes, k)
-				delete(m.schedResult, k)
-			}
-		}
-	}
-	if m.votes[r] == nil {
-		m.votes[r] = map[signature.PublicKey]vote{}
-	}
-	m.votes[r][node] = vote{result}
-	if own {
-		m.schedResult[r] = result
-	}
-	return true
-}
-
-func (m *model) process(timeout bool) outcome {
-	if m.best == math.MaxUint64 {
-		if timeout {
-			return oFailNoScheduler
-		}
-		return oWait
-	}
-	vs := m.votes[m.best]
-	want := m.schedResult[m.best]
-	if !m.resolving {
-		agree, fail, dissent := 0, 0, 0
-		distinct := map[int]bool{}
-		for _, w := range m.workers {
-			v, ok := vs[w]
-			if !ok {
-				continue
-			}
-			switch {
-			case v.result == 0:
-				fail++
-			case v.result == want:
-				agree++
-				distinct[v.result] = true
-			default:
-				dissent++
-				distinct[v.result] = true
-			}
-		}
-		bad := len(distinct) > 1 || fail > m.stragglers
-		_ = dissent
-		switch {
-		case bad && (m.best == 0 || timeout):
-			m.startResolution()
-			return oDiscrepancy
-		case bad:
-			return oWait
-		case agree >= len(m.workers)-m.stragglers:
-			return oFinalize
-		case timeout:
-			m.startResolution()
-			return oDiscrepancy
-		default:
-			return oWait
-		}
-	}
-	// Resolution: strict majority of backup workers for exactly the scheduler's result.
-	counts := map[int]int{}
-	voted := 0
-	for _, b := range m.backups {
-		v, ok := vs[b]
-		if !ok {
-			continue
-		}
-		voted++
-		if v.result != 0 {
-			counts[v.result]++
-		}
-	}
-	need := len(m.backups)/2 + 1
-	remaining := len(m.backups) - voted
-	bestCount, bestResult := 0, -1
-	for r, c := range counts {
-		if c > bestCount {
-			bestCount, bestResult = c, r
-		}
-	}
-	switch {
-	case bestCount+remaining < need:
-		return oFailResolution
-	case bestCount < need && timeout:
-		return oFailResolution
-	case bestCount < need:
-		return oWait
-	case bestResult != want:
-		return oFailResolution
-	default:
-		return oFinalize
-	}
-}
-
-func (m *model) startResolution() {
-	m.resolving = true
-	for k := range m.votes {
-		if k != m.best {
-			delete(m.votes, k)
-			delete(m.schedResult, k)
-		}
-	}
+	return c11model.New(workers, backups, c.Stragglers, c.Round)
 }
 
 // ---------------------------------------------------------------------------------------
@@ -355,7 +183,7 @@ func runCase(c *caseDesc) (st runStats, sig string, msg string) {
 			}
 			ec := mkCommit(node, sched, c.Round, res)
 			err := pool.AddVerifiedExecutorCommitment(com, ec)
-			want := m.add(node, sched, res)
+			want := m.Add(node, sched, res)
 			if !com.IsMember(node) {
 				st.outsider = true
 			}
@@ -369,7 +197,7 @@ func runCase(c *caseDesc) (st runStats, sig string, msg string) {
 				if node == sched {
 					own = append(own, committed{node, sched, ec})
 				}
-				if r, _ := m.rank(sched); r > 0 {
+				if r, _ := m.Rank(sched); r > 0 {
 					st.sawBackupRank = true
 				}
 			} else {
@@ -387,19 +215,19 @@ func runCase(c *caseDesc) (st runStats, sig string, msg string) {
 				return st, "unknown-outcome", fmt.Sprintf("step %d process(timeout=%v): unexpected result sc=%v err=%v", i, timeout, sc, err)
 			}
 			// straggler boundary bookkeeping (before model.process mutates state)
-			if !m.resolving && m.best != math.MaxUint64 {
+			if !m.Resolving && m.Best != math.MaxUint64 {
 				agree := 0
-				for _, w := range m.workers {
-					if v, ok := m.votes[m.best][w]; ok && v.result == m.schedResult[m.best] {
+				for _, w := range m.Workers {
+					if v, ok := m.Votes[m.Best][w]; ok && v.Result == m.SchedResult[m.Best] {
 						agree++
 					}
 				}
-				d := agree - (len(m.workers) - m.stragglers)
-				if d >= -1 && d <= 1 && m.stragglers > 0 {
+				d := agree - (len(m.Workers) - m.Stragglers)
+				if d >= -1 && d <= 1 && m.Stragglers > 0 {
 					st.sawStragglerBoundary = true
 				}
 			}
-			want := m.process(timeout)
+			want := m.Process(timeout)
 			st.answers = append(st.answers, "proc:"+got.String())
 			if got != want {
 				return st, "outcome", fmt.Sprintf("step %d process(timeout=%v): pool says %v (err=%v), model says %v", i, timeout, got, err, want)
@@ -418,7 +246,7 @@ func runCase(c *caseDesc) (st runStats, sig string, msg string) {
 				// The returned commitment must be the one of the best-ranked committed scheduler.
 				var bestEC *commitment.ExecutorCommitment
 				for _, o := range own {
-					if r, _ := m.rank(o.sched); r == m.best {
+					if r, _ := m.Rank(o.sched); r == m.Best {
 						bestEC = o.ec
 					}
 				}
@@ -428,17 +256,17 @@ func runCase(c *caseDesc) (st runStats, sig string, msg string) {
 				// Independent recount straight from the statement, on the returned votes.
 				if pool.Discrepancy {
 					cnt := 0
-					for _, b := range m.backups {
+					for _, b := range m.Backups {
 						if v, ok := sc.Votes[b]; ok && v != nil && *v == bestEC.ToVote() {
 							cnt++
 						}
 					}
-					if cnt < len(m.backups)/2+1 {
-						return st, "outcome", fmt.Sprintf("step %d: finalized in resolution with %d/%d backup votes", i, cnt, len(m.backups))
+					if cnt < len(m.Backups)/2+1 {
+						return st, "outcome", fmt.Sprintf("step %d: finalized in resolution with %d/%d backup votes", i, cnt, len(m.Backups))
 					}
 				} else {
 					cnt := 0
-					for _, w := range m.workers {
+					for _, w := range m.Workers {
 						v, ok := sc.Votes[w]
 						if !ok {
 							continue
@@ -451,8 +279,8 @@ func runCase(c *caseDesc) (st runStats, sig string, msg string) {
 						}
 						cnt++
 					}
-					if cnt < len(m.workers)-m.stragglers {
-						return st, "outcome", fmt.Sprintf("step %d: finalized with %d agreeing of %d primary (stragglers %d)", i, cnt, len(m.workers), m.stragglers)
+					if cnt < len(m.Workers)-m.Stragglers {
+						return st, "outcome", fmt.Sprintf("step %d: finalized with %d agreeing of %d primary (stragglers %d)", i, cnt, len(m.Workers), m.Stragglers)
 					}
 				}
 			}
